@@ -559,7 +559,7 @@ func (a *Attempt) Done() bool {
 
 // Writer is a scripted transport writer.
 type Writer struct {
-	Kind string // plain | flusher | flusherr
+	Kind string // plain | flusher | flusherr | flushboth
 	// fault plan
 	FailWrite  int // k-th Write (1-based) fails; 0 = never
 	FailAfter  int // bytes written by the failing Write before the error
@@ -602,7 +602,7 @@ func (wr *Writer) write(p []byte) (int, error) {
 func (wr *Writer) flush() error {
 	wr.mu.Lock()
 	wr.nFlush++
-	fail := wr.FailFlush != 0 && wr.nFlush == wr.FailFlush && wr.Kind == "flusherr"
+	fail := wr.FailFlush != 0 && wr.nFlush == wr.FailFlush && (wr.Kind == "flusherr" || wr.Kind == "flushboth")
 	wr.mu.Unlock()
 	if fail {
 		wr.w.add(Ev{Kind: EvFlush, Att: wr.att, Err: ErrInjected.Error()})
@@ -626,8 +626,18 @@ type flushErrW struct{ wr *Writer }
 func (p flushErrW) Write(b []byte) (int, error) { return p.wr.write(b) }
 func (p flushErrW) FlushError() error           { return p.wr.flush() }
 
+// flushBothW has Flush and FlushError, like net/http's own ResponseWriter: the
+// error is only visible through FlushError.
+type flushBothW struct{ wr *Writer }
+
+func (p flushBothW) Write(b []byte) (int, error) { return p.wr.write(b) }
+func (p flushBothW) Flush()                      { p.wr.flush() }
+func (p flushBothW) FlushError() error           { return p.wr.flush() }
+
 func (wr *Writer) iface() io.Writer {
 	switch wr.Kind {
+	case "flushboth":
+		return flushBothW{wr}
 	case "flusher":
 		return flusherW{wr}
 	case "flusherr":
